@@ -46,6 +46,13 @@ type Op struct {
 	Seed    uint64 `json:"seed,omitempty"`
 	DevType string `json:"devtype,omitempty"` // dev: chr | blk | fifo | reg | dir (mode type next to a DEVICE element)
 	Minor   uint64 `json:"minor,omitempty"`
+	Xattrs  []XA   `json:"xattrs,omitempty"` // XATTR elements behind the ENTRY (restored by LocalFS unless NoSameOwner)
+}
+
+// XA is one extended attribute of an entry.
+type XA struct {
+	Key string `json:"key"`
+	Val string `json:"val"`
 }
 
 type Case struct {
@@ -76,6 +83,20 @@ func hasDotDot(n string) bool {
 	return false
 }
 
+// selfSlash: a name made only of slashes and "." components ("/", "//", "/.", "./", ".//"):
+// joined to a directory it is that directory itself.
+func selfSlash(n string) bool {
+	if !strings.Contains(n, "/") {
+		return false
+	}
+	for _, c := range strings.Split(n, "/") {
+		if c != "" && c != "." {
+			return false
+		}
+	}
+	return true
+}
+
 // nameKind classifies the raw name of an entry op.
 func nameKind(o Op) string {
 	if o.NoName {
@@ -93,6 +114,8 @@ func nameKind(o Op) string {
 		return "dot"
 	case n == "..":
 		return "dotdot"
+	case selfSlash(n):
+		return "self-slash"
 	case strings.HasPrefix(n, "/"):
 		return "absolute"
 	case strings.HasPrefix(n, "../"):
@@ -106,8 +129,6 @@ func nameKind(o Op) string {
 	}
 	return "plain"
 }
-
-var hostileKinds = []string{"dotdot", "dotdot-prefix", "inner-dotdot", "absolute", "slash", "empty", "dot", "dot-slash", "long", "nameless"}
 
 func shortName(n string) string {
 	if len(n) > 48 {
@@ -196,6 +217,9 @@ func buildArchive(c Case) []byte {
 		entryStart := len(b)
 		b = catar.AppendEntry(b, catar.Entry{FeatureFlags: catar.DefaultFlags, Mode: uint64(modeOf(o)),
 			UID: uint64(o.UID), GID: uint64(o.GID), MTimeNs: uint64(o.Mtime) * 1_000_000_000})
+		for _, x := range o.Xattrs {
+			b = catar.AppendXattr(b, x.Key, []byte(x.Val))
+		}
 		switch o.K {
 		case "dir":
 			stack = append(stack, open{entryStart: entryStart, selfStart: start, name: name})
@@ -255,6 +279,20 @@ func normalize(c Case) Case {
 		// absolute symlink targets only ever name paths inside the chroot (everything is
 		// inside once chrooted; a NUL would end the string for the kernel)
 		o.Target = strings.ReplaceAll(o.Target, "\x00", "")
+		if len(o.Xattrs) > 4 {
+			o.Xattrs = o.Xattrs[:4]
+		}
+		xs := append([]XA(nil), o.Xattrs...)
+		for i := range xs { // only namespaces that live on the scratch files and nowhere else
+			if !strings.HasPrefix(xs[i].Key, "user.") && !strings.HasPrefix(xs[i].Key, "trusted.") || strings.Contains(xs[i].Key, "\x00") {
+				xs[i].Key = "user.c18"
+			}
+			if len(xs[i].Val) > 64 {
+				xs[i].Val = xs[i].Val[:64]
+			}
+		}
+		sort.SliceStable(xs, func(i, j int) bool { return xs[i].Key < xs[j].Key })
+		o.Xattrs = xs
 	}
 	c.Ops = ops
 	if c.Workers < 1 {
@@ -292,6 +330,10 @@ func buildTree(root, nonce string) {
 		mk(filepath.Join(l, "outside/sub"))
 		wr(filepath.Join(l, "outside/f"), "outside file "+l)
 		wr(filepath.Join(l, "outside/sub/g"), "outside sub file "+l)
+		// a sentinel that already carries attributes (an unpacker could change their values)
+		wr(filepath.Join(l, "xvictim"), "sentinel with xattrs "+l)
+		must(unix.Lsetxattr(filepath.Join(root, l, "xvictim"), "user.sentinel", []byte("orig"), 0))
+		must(unix.Lsetxattr(filepath.Join(root, l, "xvictim"), "trusted.sentinel", []byte("orig"), 0))
 	}
 	mk("sb/l1/l2/l3/sib")
 	wr("sb/l1/l2/l3/sib/s", "sibling")
@@ -353,6 +395,7 @@ type observed struct {
 	Result  string    `json:"unpacker_result"`
 	Calls   []callRec `json:"calls"`
 	Changes []change  `json:"changes_outside_dest"`
+	Final   []change  `json:"changed_after_last_entry,omitempty"`
 	Stderr  string    `json:"child_stderr,omitempty"`
 }
 
@@ -467,6 +510,15 @@ func runReal(c Case) (o hx.Outcome) {
 				kinds["symlink-name"] = true
 			}
 		}
+		if len(op.Xattrs) > 0 {
+			o.Class("xattrs:" + op.K)
+			if !c.NoSameOwner && ei < len(res.Calls) && res.Calls[ei].Err == "" {
+				o.Class("xattrs:" + op.K + ":restored")
+				if op.K == "sym" && existingOutside[op.Target] {
+					o.Class("xattrs:sym:restored:target-exists-outside")
+				}
+			}
+		}
 		if op.K == "sym" && ei < len(res.Calls) && res.Calls[ei].Err == "" {
 			if nk == "plain" {
 				symNames = append(symNames, raw)
@@ -520,6 +572,9 @@ func runReal(c Case) (o hx.Outcome) {
 		default:
 			shape = append(shape, op.K+":"+shortName(op.fullName()))
 		}
+		for _, x := range op.Xattrs {
+			shape[len(shape)-1] += "+" + x.Key
+		}
 	}
 	result := "nil"
 	if res.Err != "" {
@@ -528,7 +583,7 @@ func runReal(c Case) (o hx.Outcome) {
 	o.Desc = map[string]any{"path": c.Path, "ops": shape, "archive_bytes": len(archive), "chunks": chunks,
 		"prelink": c.PreLink, "entries_reached": nReached, "entries": len(entries), "result": result, "changes_outside": len(changes)}
 	o.Key = c.Path + "|" + c.PreLink + "|" + strings.Join(shape, "|")
-	obs := observed{Result: res.Err, Changes: changes, Stderr: res.Stderr}
+	obs := observed{Result: res.Err, Changes: changes, Stderr: res.Stderr, Final: res.Final}
 	if res.Err == "" {
 		obs.Result = "nil"
 	}
@@ -561,7 +616,19 @@ func runReal(c Case) (o hx.Outcome) {
 		if call < 0 {
 			call = anyCall
 		}
-		sig := "C18:" + mechanism(entries, res.Calls, call) + ":" + ch.Effect
+		deferred := false
+		for _, x := range res.Final { // done after the last entry (deferred directory mtimes)
+			if x.Path == ch.Path && (x.Effect == ch.Effect || call < 0) {
+				deferred = true
+			}
+		}
+		mech := mechanism(entries, res.Calls, call)
+		if deferred {
+			call = len(res.Calls) - 1
+			mech = mechanism(entries, res.Calls, call)
+			mech = mech[:strings.LastIndexByte(mech, ':')] + ":deferred"
+		}
+		sig := "C18:" + mech + ":" + ch.Effect
 		g := groups[sig]
 		if g == nil {
 			g = &group{}
@@ -569,7 +636,9 @@ func runReal(c Case) (o hx.Outcome) {
 			order = append(order, sig)
 		}
 		by := "an entry the child could not attribute"
-		if call >= 0 {
+		if deferred {
+			by = "work done after the last entry"
+		} else if call >= 0 {
 			by = fmt.Sprintf("entry #%d (%s %q)", call, res.Calls[call].Kind, shortName(res.Calls[call].Name))
 		}
 		g.paths = append(g.paths, fmt.Sprintf("/%s [%s] by %s", ch.Path, ch.Detail, by))
@@ -583,13 +652,15 @@ func runReal(c Case) (o hx.Outcome) {
 
 // Name kinds and routes that make up a signature "C18:<name kind>:<route>:<effect>".
 var (
-	sigKinds  = []string{"dotdot-name", "slash-in-name", "absolute-name", "nameless-entry", "empty-name", "dot-name", "dir-over-symlink", "plain-name", "unattributed"}
-	sigRoutes = []string{"lexical", "via-symlink", "self", "unknown"}
+	sigKinds  = []string{"dotdot-name", "slash-in-name", "absolute-name", "self-slash-name", "nameless-entry", "empty-name", "dot-name", "dir-over-symlink", "plain-name", "unattributed"}
+	sigRoutes = []string{"lexical", "via-symlink", "own-link-followed", "self", "deferred", "unknown"}
 )
 
 // mechanism names how entry #call got outside: the route (lexical = the joined path itself
 // leaves dest; via-symlink = the path stays below dest lexically but crosses a symlink the
-// archive made; self = the entry's own path is dest) and the kind of raw name that opened it
+// archive made; own-link-followed = a symlink entry whose own, freshly made link was followed;
+// self = the entry's own path is dest; deferred = work done after the last entry) and the kind
+// of raw name that opened it
 // (looked for in the entry itself, then in earlier entries from the latest backwards).
 func mechanism(entries []Op, calls []callRec, call int) string {
 	if call < 0 || call >= len(calls) || call >= len(entries) {
@@ -638,6 +709,8 @@ func mechanism(entries []Op, calls []callRec, call int) string {
 			return "dot-name"
 		case n == "..": // inside a directory: names the parent, possibly dest itself
 			return "dotdot-name"
+		case selfSlash(n):
+			return "self-slash-name"
 		case strings.HasPrefix(n, "/"):
 			return "absolute-name"
 		case strings.Contains(n, "/"):
@@ -646,9 +719,12 @@ func mechanism(entries []Op, calls []callRec, call int) string {
 		return ""
 	})
 	if k == "" {
-		if route == "via-symlink" {
+		switch {
+		case route == "via-symlink":
 			k = "dir-over-symlink"
-		} else {
+		case calls[call].Kind == "sym":
+			k, route = "plain-name", "own-link-followed"
+		default:
 			k = "plain-name"
 		}
 	}
@@ -662,7 +738,13 @@ var (
 	tails      = []string{"victim", "new", "outside/f", "outside/new", "outside/sub", "outside", "vlink", "sib/new", "sib", "x"}
 	symTargets = []string{"../../outside", "../outside", "../../../outside", "..", "../..", ".", "/sb/outside", "/outside",
 		"/sb/l1/l2/outside", "/sb/l1/l2/l3/outside", "/", "/abs", "/sb/l1/l2/l3", "../sib", "../victim", "/victim", "a", "nonexistent",
-		"/sb/l1/l2/l3/sib", "../../../../../outside"}
+		"/sb/l1/l2/l3/sib", "../../../../../outside", "../xvictim", "../../xvictim", "/sb/l1/xvictim", "/xvictim", "../../outside/f", "/abs/x", "/sb/victim"}
+	// symlink targets that name an existing object outside dest from any nesting depth used here
+	existingOutside = map[string]bool{"../../outside": true, "../../../outside": true, "../..": true, "/sb/outside": true,
+		"/outside": true, "/sb/l1/l2/outside": true, "/sb/l1/l2/l3/outside": true, "/": true, "/abs": true, "/sb/l1/l2/l3": true, "/victim": true,
+		"/sb/l1/l2/l3/sib": true, "../../../../../outside": true, "../../xvictim": true, "/sb/l1/xvictim": true, "/xvictim": true, "../../outside/f": true,
+		"/abs/x": true, "/sb/victim": true}
+	xattrKeys  = []string{"user.c18", "trusted.c18", "trusted.c18", "user.sentinel", "trusted.sentinel"}
 	entryKinds = []string{"file", "file", "file", "dir", "dir", "sym", "dev"}
 	belowSym   = []string{"x", "f", "sub", "sub/x", "sub/g", "new/y", ".", ""}
 )
@@ -672,6 +754,15 @@ func genAttrs(t *rapid.T, o *Op) {
 	o.UID = rapid.SampledFrom([]int{0, 1234, 1234, 65}).Draw(t, "uid")
 	o.GID = rapid.SampledFrom([]int{0, 4321, 4321, 66}).Draw(t, "gid")
 	o.Mtime = rapid.SampledFrom([]int64{0, 1_234_567_890, 1_234_567_890, 86400}).Draw(t, "mtime")
+	xprob := 6
+	if o.K == "sym" {
+		xprob = 2
+	}
+	if rapid.IntRange(0, xprob).Draw(t, "xattr") == 0 {
+		for i, n := 0, rapid.IntRange(1, 2).Draw(t, "nx"); i < n; i++ {
+			o.Xattrs = append(o.Xattrs, XA{Key: rapid.SampledFrom(xattrKeys).Draw(t, "xkey"), Val: rapid.SampledFrom([]string{"pwned", "", "orig"}).Draw(t, "xval")})
+		}
+	}
 	switch o.K {
 	case "file":
 		o.Size = rapid.SampledFrom([]int{0, 1, 5, 5, 100, 2000}).Draw(t, "size")
@@ -696,12 +787,12 @@ func genName(t *rapid.T, kind string, syms []string, o *Op) {
 		o.Name = base + "/" + strings.Repeat("../", rapid.IntRange(1, 9).Draw(t, "up")) + rapid.SampledFrom(tails).Draw(t, "tail")
 	case "absolute":
 		o.Name = "/" + rapid.SampledFrom([]string{"abs/x", "abs/new", "victim", "sb/victim", "sb/outside/new", "outside/new",
-			"sb/l1/l2/l3/victim", "x", "abs", "/x", "../victim", "../../../../../../victim"}).Draw(t, "abs")
+			"sb/l1/l2/l3/victim", "x", "abs", "/x", "../victim", "../../../../../../victim", "a", "/a", "new", "./x"}).Draw(t, "abs")
 	case "slash":
 		if len(syms) > 0 && rapid.IntRange(0, 2).Draw(t, "usesym") > 0 {
 			o.Name = rapid.SampledFrom(syms).Draw(t, "sym") + "/" + rapid.SampledFrom(belowSym).Draw(t, "below")
 		} else {
-			o.Name = rapid.SampledFrom([]string{"a/b", "a/b/c", "l/x", "l/sub", "l/sub/x", "l/f", "a//b", "a/", "l/", "a/./b", "d/x"}).Draw(t, "slash")
+			o.Name = rapid.SampledFrom([]string{"a/b", "a/b/c", "l/x", "l/sub", "l/sub/x", "l/f", "a//b", "a/", "l/", "a/./b", "d/x", "a//", "x/", "x/.", "new/"}).Draw(t, "slash")
 		}
 	case "empty":
 		o.Name = ""
@@ -720,13 +811,15 @@ func genName(t *rapid.T, kind string, syms []string, o *Op) {
 		}
 	case "nameless":
 		o.NoName = true
+	case "self-slash":
+		o.Name = rapid.SampledFrom([]string{"/", "/", "/", "/", "//", "/.", "./", ".//", "/./", "///", "././", "//."}).Draw(t, "selfslash")
 	case "nul":
 		o.Name = rapid.SampledFrom([]string{"x\x00y", "\x00", "..\x00", "../victim\x00", "a\x00/../../victim", "\x00/../victim"}).Draw(t, "nul")
 	}
 }
 
 var allNameKinds = []string{"plain", "plain", "plain", "plain", "dotdot", "dotdot-prefix", "dotdot-prefix", "inner-dotdot", "absolute",
-	"slash", "slash", "empty", "dot", "dot-slash", "long", "symlink-name", "nameless", "nul"}
+	"slash", "slash", "empty", "dot", "dot-slash", "long", "symlink-name", "nameless", "nul", "self-slash"}
 
 func genEntry(t *rapid.T, kinds []string, nameKinds []string, syms []string) Op {
 	var o Op
@@ -748,7 +841,7 @@ func plainEntry(t *rapid.T, k, name string) Op {
 	return o
 }
 
-var selfKinds = []string{"nameless", "empty", "dot"}
+var selfKinds = []string{"nameless", "empty", "dot", "self-slash", "self-slash", "self-slash"}
 
 func genCase(t *rapid.T) Case {
 	var c Case
@@ -894,7 +987,7 @@ var spec = &hx.Spec[Case]{
 		"in a chrooted child; non-trivial = the unpacker was handed (all earlier entries accepted) at least one entry whose name has a '..' component or a '/', " +
 		"or an entry whose path crosses a symlink made earlier by the same archive (or left in dest by an earlier unpack); distinct by (path, sequence of entry kinds, names, symlink targets)",
 	Assumptions: []string{
-		"oracle: lstat fields (type, mode, owner, mtime), link targets, device numbers and file contents of every object in the chroot tree outside dest are equal before and after; directory mtime differences explained by a reported child are folded into that child; atime and ctime are not compared; xattrs are not compared",
+		"oracle: lstat fields (type, mode, owner, mtime), link targets, device numbers and file contents of every object in the chroot tree outside dest are equal before and after; directory mtime differences explained by a reported child are folded into that child; atime and ctime are not compared; extended attributes are compared (llistxattr/lgetxattr on the object itself, as root: user.*, trusted.*, security.*)",
 		"the destination exists and is a real directory, empty or holding one symlink 'l' (as an earlier unpack could leave it); nothing but the unpacker touches the tree",
 		"the child records FilesystemWriter calls through a pass-through wrapper around desync.LocalFS (used for attribution and class counting only, the verdict is the parent's snapshot difference)",
 		"archives are chunked in the parent with desync.ChunkStream (min 64, avg 192, max 768) into an uncompressed LocalStore inside the chroot tree",
@@ -902,7 +995,8 @@ var spec = &hx.Spec[Case]{
 	},
 	Required: []string{"path:catar", "path:index",
 		"name:dotdot", "name:dotdot-prefix", "name:inner-dotdot", "name:absolute", "name:slash", "name:empty", "name:dot", "name:dot-slash", "name:long",
-		"name:symlink-name", "name:nameless", "symlink-then-entry", "absolute-symlink-target",
+		"name:symlink-name", "name:nameless", "name:self-slash", "symlink-then-entry", "absolute-symlink-target",
+		"xattrs:sym", "xattrs:file", "xattrs:dir", "xattrs:sym:restored:target-exists-outside",
 		"entry:dir", "entry:file", "entry:sym", "entry:dev", "result:error", "result:nil", "entry-path-crosses-archive-symlink", "symlink-in-dest-before-the-run"},
 	Gen: genCase,
 	Run: run,
@@ -963,7 +1057,11 @@ var enumNames = []Op{
 	{Name: "../vlink"}, {Name: "../"}, {Name: "a/../../victim"}, {Name: "a/../../../outside/f"}, {Name: "./../victim"},
 	{Name: "/abs/x"}, {Name: "/victim"}, {Name: "/../victim"}, {Name: "a/b"}, {Name: "a/"}, {Name: "a//b"},
 	{Name: ""}, {Name: "."}, {Name: "./x"}, {Name: "./."}, {Name: "n", Rep: 256}, {Name: "a/", Rep: 2100}, {Name: "../", Rep: 1400}, {NoName: true}, {Name: "x"}, {Name: "x\x00y"}, {Name: "../victim\x00"}, {Name: "..\x00"},
+	{Name: "/"}, {Name: "//"}, {Name: "/."}, {Name: "./"}, {Name: ".//"}, {Name: "/./"}, {Name: "/a"}, {Name: "//a"}, {Name: "a//"}, {Name: "x/"}, {Name: "x/."},
 }
+
+// names that stand for the directory being unpacked
+var enumSelves = []Op{{NoName: true}, {Name: ""}, {Name: "."}, {Name: "/"}, {Name: "//"}, {Name: "/."}, {Name: "./"}, {Name: ".//"}}
 
 // TestEnum: every listed name as every entry kind at several nesting depths; every listed
 // symlink target followed by every kind of entry beneath/over the link; the
@@ -1034,7 +1132,7 @@ func TestEnum(t *testing.T) {
 			}
 		}
 	}
-	for _, self := range []Op{{NoName: true}, {Name: ""}, {Name: "."}} {
+	for _, self := range enumSelves {
 		for _, inDir := range []bool{false, true} {
 			for _, tg := range []string{"../outside", "/outside", "../../../../.."} {
 				f, s := self, self
@@ -1047,6 +1145,16 @@ func TestEnum(t *testing.T) {
 				ops = append(ops, attr(Op{K: "file", Name: "f"}), attr(f), attr(s), attr(Op{K: "file", Name: "x"}), attr(Op{K: "dir", Name: "sub"}))
 				for _, p := range pathFor() {
 					cases = append(cases, Case{Path: p, Ops: ops, Workers: 1})
+				}
+				// the same steps two directories further down, and symlink first / device in between
+				if tg == "/outside" {
+					d, v := self, self
+					d.K, v.K = "dir", "dev"
+					deep := wrapIn(2, attr(Op{K: "file", Name: "f"}), attr(f), attr(s), attr(Op{K: "file", Name: "x"}))
+					other := []Op{attr(Op{K: "file", Name: "f"}), attr(v), attr(f), attr(s), attr(d), attr(Op{K: "dev", Name: "x"})}
+					for _, p := range pathFor() {
+						cases = append(cases, Case{Path: p, Ops: deep, Workers: 1}, Case{Path: p, Ops: other, Workers: 1})
+					}
 				}
 			}
 		}
@@ -1064,9 +1172,36 @@ func TestEnum(t *testing.T) {
 			}
 		}
 	}
+	// entries carrying extended attributes; symlinks to existing objects outside dest (relative
+	// and absolute-inside-chroot targets), owner/xattr restoration on (the library default)
+	xtargets := hx.Pick([]string{"../xvictim", "../../outside", "/sb/l1/xvictim", "/sb/outside", "/victim", "/abs/x"},
+		[]string{"../xvictim", "../victim", "../outside", "../../outside", "../../xvictim", "..", "/sb/l1/xvictim", "/sb/outside", "/victim", "/abs/x", "/abs", "/", "nonexistent"})
+	for _, tg := range xtargets {
+		for _, key := range []string{"user.c18", "trusted.c18", "user.sentinel", "trusted.sentinel"} {
+			o := attr(Op{K: "sym", Name: "lx", Target: tg})
+			o.Xattrs = []XA{{Key: key, Val: "pwned"}}
+			for _, p := range pathFor() {
+				cases = append(cases, Case{Path: p, Ops: []Op{o}, Workers: 1})
+			}
+		}
+		o := attr(Op{K: "sym", Name: "lx", Target: tg})
+		o.Xattrs = []XA{{Key: "trusted.c18", Val: "pwned"}, {Key: "trusted.sentinel", Val: "pwned"}}
+		for _, p := range pathFor() {
+			cases = append(cases, Case{Path: p, Ops: wrapIn(1, o), Workers: 1}, Case{Path: p, Ops: []Op{attr(Op{K: "file", Name: "lx"}), o, o}, Workers: 1})
+		}
+	}
+	for _, k := range []string{"dir", "file", "dev"} {
+		for _, key := range []string{"user.c18", "trusted.c18"} {
+			o := attr(Op{K: k, Name: "xo"})
+			o.Xattrs = []XA{{Key: key, Val: "v"}}
+			for _, p := range pathFor() {
+				cases = append(cases, Case{Path: p, Ops: []Op{attr(Op{K: "sym", Name: "xo", Target: "/sb/l1/xvictim"}), o}, Workers: 1})
+			}
+		}
+	}
 	hx.AddNote("enumerated_cases", len(cases))
 	if runPool(t, cases) {
-		hx.Exhaustive("listed hostile names x {dir,file,symlink,device} x nesting depths; listed symlink targets (made by the archive or present before) x entries beneath/over the link; replace-current-directory sequences")
+		hx.Exhaustive("listed hostile names x {dir,file,symlink,device} x nesting depths; listed symlink targets (made by the archive or present before) x entries beneath/over the link; replace-current-directory sequences for every listed self name (nameless, empty, '.', '/', '//', '/.', './', './/'); entries with user.*/trusted.* xattrs incl. symlinks to existing outside objects")
 	}
 }
 
@@ -1134,6 +1269,7 @@ func TestSelf(t *testing.T) {
 		want := map[string]string{
 			"sb/l1/outside/planted": effCreated, "sb/l1/l2/victim": effDeleted, "sb/l1/l2/l3/victim": effContent, "sb/l1/victim": effMeta,
 			"sb/victim": effMeta, "sb/l1/l2/outside": effMeta, "sb/l1/l2/l3/vlink": effTarget, "sb/l1/vlink": effReplaced, "escape-attempt": effCreated,
+			"sb/outside/f": effXattr, "sb/l1/outside/sub": effXattr, "sb/l1/l2/xvictim": effXattr, "sb/vlink": effXattr,
 		}
 		if fmt.Sprint(got) != fmt.Sprint(want) {
 			fail("snapshot difference after the tamper child:\n got  %v\n want %v", got, want)
